@@ -235,7 +235,12 @@ func runC08(c *core.Ctx, drv string, idx int) {
 	for i := range atts {
 		addAtt(&atts[i])
 	}
+	// selecting the current database again, spelled in another letter case,
+	// must not disturb anything (names are case-insensitive on disk)
 	for i := range upds {
+		if i == len(upds)/2 {
+			add(proto.Op{K: "sql", SQL: "USE D1"}, meta{kind: "other"})
+		}
 		addAtt(&upds[i])
 	}
 	// placeholder for the size-limit updates: generated from the model state
